@@ -103,6 +103,30 @@ func genC07(c *Ctx) {
 			s.end()
 			continue
 		}
+		if (kind == "read" || kind == "stat" || kind == "wstat") && r.Intn(2) == 0 {
+			// three requests of the target's kind at once, answered: the pool of reply buffers then holds
+			// buffers that last carried this kind of reply
+			b0, g0 := s.nreqs(), s.nframes()
+			var fr [][]byte
+			var rids []int
+			s.mu.Lock()
+			for j := 0; j < 3; j++ {
+				s.plans[b0+j] = plan{gate: true}
+				rids = append(rids, b0+j)
+			}
+			s.mu.Unlock()
+			for j := 0; j < 3; j++ {
+				fr = append(fr, targetFrame(s, kind, uint16(20+j)))
+			}
+			s.write(fr...)
+			s.waitEntered(rids, g0, 5*time.Second)
+			for _, x := range rids {
+				s.release(x)
+			}
+			s.waitFrames(g0+3, 5*time.Second)
+			s.quiet(time.Millisecond)
+			c.count("warm-pool")
+		}
 		base := s.nreqs()
 		f0 := s.nframes()
 		var flushes []flushRec
